@@ -3,8 +3,9 @@
   trlog(T) returns S = (v, w) with w the logarithm of the rotation block and v = G⁻¹ t,
       G⁻¹ = I − ½[w] + ((1/θ − cot(θ/2)/2)/θ)[w]²,   θ = ‖w‖,
   and trexp(S) rebuilds the translation as G v,  G = I + ((1 − cos θ)/θ²)[w] + ((θ − sin θ)/θ³)[w]².
-  Proved here: G (G⁻¹ t) = t for every t, from tan(θ/2)(1 + cos θ) = sin θ and tan(θ/2) sin θ = 1 − cos θ; and the value
-  of the traced `trlog` on that branch is exactly (G⁻¹ t, w).
+  Proved here: G (G⁻¹ t) = t for every t, from tan(θ/2)(1 + cos θ) = sin θ and tan(θ/2) sin θ = 1 − cos θ; on every path of the
+  traced `trlog(T, twist=True)` outside the identity bands the value is (G⁻¹ t, w) with w = trlog of the rotation block; hence
+  exp(log T) = T (screw closed form = what `trexp` evaluates) for cos θ ≥ 0 and for cos θ < 0, sin θ > 0.
 -/
 import SmVerif.Props.C03
 
@@ -81,6 +82,33 @@ theorem trlog_T_general_value (T : Mat 4 4 R) (S : Vec 6 R) (h : Gen.trlog_T_twi
             (T 1 0 - T 0 1) / 2 * (P.atan2 s c / s) * ((T 1 0 - T 0 1) / 2 * (P.atan2 s c / s)) := by ring
       rw [en]
       funext i; fin_cases i <;> simp [Gmap, cross3] <;> ring
+
+/-- on every path outside the two identity bands the translational part of `trlog(T, twist=True)` is
+    t − ½ w × t + c·w × (w × t), c = (1/n − cot(n/2)/2)/n, n = ‖w‖, where w is the rotational part it returns -/
+theorem trlog_T_translation_value (T : Mat 4 4 R) (S : Vec 6 R) (h : Gen.trlog_T_twist P T = .ok S) :
+    S = v6 0 0 0 0 0 0 ∨ S = v6 (T 0 3) (T 1 3) (T 2 3) 0 0 0 ∨
+    v3 (S 0) (S 1) (S 2) = Gmap (-(1 / 2))
+        ((1 / P.sqrt (S 3 * S 3 + S 4 * S 4 + S 5 * S 5) - 1 / P.tan (P.sqrt (S 3 * S 3 + S 4 * S 4 + S 5 * S 5) / 2) / 2) / P.sqrt (S 3 * S 3 + S 4 * S 4 + S 5 * S 5))
+        (v3 (S 3) (S 4) (S 5)) (v3 (T 0 3) (T 1 3) (T 2 3)) := by
+  have e : ∀ a : R, (a - -a) / 2 = a := by intro a; ring
+  unfold Gen.trlog_T_twist at h; simp only [] at h
+  simp only [e] at h
+  split_ifs at h <;> cases h
+  · left; rfl
+  · right; left; rfl
+  all_goals (right; right; simp only [v6_0, v6_1, v6_2, v6_3, v6_4, v6_5]; funext i; fin_cases i <;> simp [Gmap, cross3] <;> ring)
+
+/-- outside the two identity bands the rotational part of `trlog(T)` is `trlog` of the rotation block -/
+theorem trlog_T_rot_eq (T : Mat 4 4 R) (S : Vec 6 R) (h : Gen.trlog_T_twist P T = .ok S) :
+    S = v6 0 0 0 0 0 0 ∨ S = v6 (T 0 3) (T 1 3) (T 2 3) 0 0 0 ∨ Gen.trlog_R_twist P (rotOf3 T) = .ok (v3 (S 3) (S 4) (S 5)) := by
+  have e : ∀ a : R, (a - -a) / 2 = a := by intro a; ring
+  unfold Gen.trlog_T_twist at h; simp only [] at h
+  simp only [e] at h
+  unfold Gen.trlog_R_twist; simp only [rotOf3, v3_0, v3_1, v3_2]
+  split_ifs at h <;> cases h
+  · left; rfl
+  · right; left; rfl
+  all_goals (right; right; simp only [v6_3, v6_4, v6_5]; simp only [*, if_true, if_false, not_true_eq_false, ite_true, ite_false])
 
 /-- atan2 of a positive sine is a positive angle -/
 def Atan2Pos (P : Prims R) : Prop := ∀ y x : R, 0 < y → 0 < P.atan2 y x
@@ -198,5 +226,82 @@ theorem exp_log_SE3_general (hS : P.Sqrt) (hA : C03.Atan2Law P) (hPos : Atan2Pos
   obtain ⟨r0, r1, r2, r3⟩ := hrow
   funext i j
   fin_cases i <;> fin_cases j <;> simp [rt3, rotOf3, r0, r1, r2, r3]
+
+/-- assembling rotation and translation: if the rotational part of S is θ·a (unit a, θ > 0, sin θ ≠ 0) with Rodrigues(a, θ) the rotation
+    block of T, and the translational part is G⁻¹t as the code computes it, then the screw closed form for S is T -/
+theorem se3_assemble (hS : P.Sqrt) (hTan : TanLaw P) (T : Mat 4 4 R) (hrow : T 3 0 = 0 ∧ T 3 1 = 0 ∧ T 3 2 = 0 ∧ T 3 3 = 1)
+    (S : Vec 6 R) (a : Vec 3 R) (θ : R) (hθpos : 0 < θ) (hsin : P.sin θ ≠ 0)
+    (hL : ∀ i, (v3 (S 3) (S 4) (S 5) : Vec 3 R) i = a i * θ) (ha : a 0 ^ 2 + a 1 ^ 2 + a 2 ^ 2 = 1)
+    (hrod : rodM a (P.cos θ) (P.sin θ) = rotOf3 T)
+    (hv : v3 (S 0) (S 1) (S 2) = Gmap (-(1 / 2))
+        ((1 / P.sqrt (S 3 * S 3 + S 4 * S 4 + S 5 * S 5) - 1 / P.tan (P.sqrt (S 3 * S 3 + S 4 * S 4 + S 5 * S 5) / 2) / 2) / P.sqrt (S 3 * S 3 + S 4 * S 4 + S 5 * S 5))
+        (v3 (S 3) (S 4) (S 5)) (v3 (T 0 3) (T 1 3) (T 2 3))) :
+    θ * θ = S 3 * S 3 + S 4 * S 4 + S 5 * S 5 ∧
+    screwExp (fun i => v3 (S 3) (S 4) (S 5) i / θ) (fun i => v3 (S 0) (S 1) (S 2) i / θ) (P.cos θ) (P.sin θ) θ = T := by
+  have hθne : θ ≠ 0 := ne_of_gt hθpos
+  have l0 := hL 0; have l1 := hL 1; have l2 := hL 2
+  simp only [v3_0, v3_1, v3_2] at l0 l1 l2
+  have hww : S 3 * S 3 + S 4 * S 4 + S 5 * S 5 = θ * θ := by
+    rw [l0, l1, l2]; linear_combination (θ * θ) * ha
+  have hsq : P.sqrt (S 3 * S 3 + S 4 * S 4 + S 5 * S 5) = θ := by
+    rw [hww]
+    have h1 := hS.mul_self _ (mul_self_nonneg θ)
+    have h0 := hS.nonneg (θ * θ)
+    have h2 : (P.sqrt (θ * θ) - θ) * (P.sqrt (θ * θ) + θ) = 0 := by linear_combination h1
+    rcases mul_eq_zero.mp h2 with e | e
+    · linarith
+    · exfalso; linarith
+  rw [hsq] at hv
+  obtain ⟨t1, t2⟩ := hTan θ
+  have hTn : P.tan (θ / 2) ≠ 0 := by
+    intro e; rw [e] at t1; apply hsin; linarith
+  obtain ⟨c1, c2⟩ := log_coeffs θ (P.sin θ) (P.cos θ) (P.tan (θ / 2)) hθne hTn t1 t2
+  refine ⟨hww.symm, ?_⟩
+  have hax : (fun i => (v3 (S 3) (S 4) (S 5) : Vec 3 R) i / θ) = a := by
+    funext i; rw [hL i]; field_simp
+  unfold screwExp
+  rw [Vmat_eq_Gmap _ _ _ _ _ hθne, hv, hax, hrod]
+  have hG := G_Ginv (v3 (S 3) (S 4) (S 5)) (v3 (T 0 3) (T 1 3) (T 2 3)) _ _ _ (θ * θ) (by simp only [v3_0, v3_1, v3_2]; exact hww.symm) c1 c2
+  rw [hG]
+  obtain ⟨r0, r1, r2, r3⟩ := hrow
+  funext i j
+  fin_cases i <;> fin_cases j <;> simp [rt3, rotOf3, r0, r1, r2, r3]
+
+/-- **exp(log T) = T on the obtuse branch of the SE(3) logarithm** (cos θ < 0, sin θ > 0; all eight paths of the axis selection) -/
+theorem exp_log_SE3_obtuse (hS : P.Sqrt) (hA : C03.Atan2Law P) (hPos : Atan2Pos P) (hTan : TanLaw P)
+    (T : Mat 4 4 R) (hm : IsSO3 (rotOf3 T)) (hrow : T 3 0 = 0 ∧ T 3 1 = 0 ∧ T 3 2 = 0 ∧ T 3 3 = 1)
+    (S : Vec 6 R) (h : Gen.trlog_T_twist P T = .ok S)
+    (hc : (T 0 0 + T 1 1 + T 2 2 - 1) / 2 < 0)
+    (hs : P.sqrt ((T 2 1 - T 1 2) / 2 * ((T 2 1 - T 1 2) / 2) + (T 0 2 - T 2 0) / 2 * ((T 0 2 - T 2 0) / 2) + (T 1 0 - T 0 1) / 2 * ((T 1 0 - T 0 1) / 2)) > 0) :
+    S = v6 0 0 0 0 0 0 ∨ S = v6 (T 0 3) (T 1 3) (T 2 3) 0 0 0 ∨ (S 3 = 0 ∧ S 4 = 0 ∧ S 5 = 0) ∨
+    ∃ θ : R, 0 < θ ∧ θ * θ = S 3 * S 3 + S 4 * S 4 + S 5 * S 5 ∧
+      screwExp (fun i => v3 (S 3) (S 4) (S 5) i / θ) (fun i => v3 (S 0) (S 1) (S 2) i / θ) (P.cos θ) (P.sin θ) θ = T := by
+  rcases trlog_T_rot_eq P T S h with h0 | h0 | hR
+  · left; exact h0
+  · right; left; exact h0
+  rcases trlog_T_translation_value P T S h with g0 | g0 | hv
+  · left; exact g0
+  · right; left; exact g0
+  right; right
+  have hc' : (rotOf3 T 0 0 + rotOf3 T 1 1 + rotOf3 T 2 2 - 1) / 2 < 0 := by simpa [rotOf3] using hc
+  have hs' : P.sqrt ((rotOf3 T 2 1 - rotOf3 T 1 2) / 2 * ((rotOf3 T 2 1 - rotOf3 T 1 2) / 2) + (rotOf3 T 0 2 - rotOf3 T 2 0) / 2 * ((rotOf3 T 0 2 - rotOf3 T 2 0) / 2) + (rotOf3 T 1 0 - rotOf3 T 0 1) / 2 * ((rotOf3 T 1 0 - rotOf3 T 0 1) / 2)) > 0 := by
+    simpa [rotOf3] using hs
+  rcases C03.exp_log_SO3_obtuse P hS hA (rotOf3 T) hm _ hR hc' hs' with hz | ⟨a, θ, hθ, hL, ha, hrod⟩
+  · left
+    have z0 := congrFun hz 0; have z1 := congrFun hz 1; have z2 := congrFun hz 2
+    simp only [v3_0, v3_1, v3_2] at z0 z1 z2
+    exact ⟨z0, z1, z2⟩
+  right
+  have hss := hS.mul_self _ (sq3_nonneg' ((T 2 1 - T 1 2) / 2) ((T 0 2 - T 2 0) / 2) ((T 1 0 - T 0 1) / 2))
+  have hsc := sin_sq_add_cos_sq hm
+  simp only [dot, sinAxis, cosAngle, Fin.sum_univ_three, v3_0, v3_1, v3_2, rotOf3] at hsc hθ
+  generalize hsdef : P.sqrt ((T 2 1 - T 1 2) / 2 * ((T 2 1 - T 1 2) / 2) + (T 0 2 - T 2 0) / 2 * ((T 0 2 - T 2 0) / 2) + (T 1 0 - T 0 1) / 2 * ((T 1 0 - T 0 1) / 2)) = s at *
+  generalize hcdef : (T 0 0 + T 1 1 + T 2 2 - 1) / 2 = c at *
+  have hunit : c * c + s * s = 1 := by rw [hss]; linear_combination hsc
+  obtain ⟨hcos, hsin⟩ := hA s c hs hunit
+  have hθpos : 0 < θ := by rw [hθ]; exact hPos s c hs
+  have hsinne : P.sin θ ≠ 0 := by rw [hθ, hsin]; exact ne_of_gt hs
+  obtain ⟨e1, e2⟩ := se3_assemble P hS hTan T hrow S a θ hθpos hsinne hL ha hrod hv
+  exact ⟨θ, hθpos, e1, e2⟩
 
 end SmVerif.Props.SE3Log
